@@ -64,7 +64,7 @@ def run(ck):
     engine.check_engine(ck, 'C11', actor.proj(keep_out=keep, keys=('starts', 'alive', 'zombies')),
                         'Ok messages with their actual flag + service starts + live instances',
                         families=['svc', 'aggchain', 'random'], fail_p=0.45, gated_p=0.8, n_sys_quick=16, extra=lifetimes,
-                        n_root_quick=150, root_projection=root.status_only, root_what='whether and with which status run returns')
+                        n_root_quick=150, root_projection=root.status_only, root_what='whether and with which status run returns', n_evflow_quick=16)
 
 
 def replay(ck, path):
